@@ -20,4 +20,5 @@ import (
 	_ "verifharness/internal/props/c17"
 	_ "verifharness/internal/props/c18"
 	_ "verifharness/internal/props/c19"
+	_ "verifharness/internal/props/c20"
 )
